@@ -285,6 +285,11 @@ func cmdCheck(args []string) int {
 		for ki, k := range known {
 			if k.Status == "open" && k.Obligation != "" && (k.Obligation == r.O.Name || k.Obligation == stripOrdinal(r.O.Name)) {
 				isKnown = true
+				if !r.OK && k.Property != prop && prop != "ALL" {
+					// a finding recorded for another property: the clause belongs to that
+					// property's check (which reports it); here it is neither counted nor printed
+					continue
+				}
 				if !r.OK {
 					knownFail[ki]++
 					if k.Sites > 0 && knownFail[ki] > k.Sites {
